@@ -358,9 +358,10 @@ func (srv *server) registerClient(connect *packets.Connect, client *client) (ses
 			var willDelayInterval, expiryInterval uint32
 			if connect.WillFlag {
 				willMsg = &gmqtt.Message{
-					QoS:     connect.WillQos,
-					Topic:   string(connect.WillTopic),
-					Payload: connect.WillMsg,
+					QoS:      connect.WillQos,
+					Retained: connect.WillRetain,
+					Topic:    string(connect.WillTopic),
+					Payload:  connect.WillMsg,
 				}
 				setWillProperties(connect.WillProperties, willMsg)
 			}
@@ -535,6 +536,13 @@ func (srv *server) sendWillLocked(msg *gmqtt.Message, clientID string) {
 	}
 	// the hook may have replaced or edited the message
 	msg = req.Message
+	if msg.Retained {
+		if len(msg.Payload) == 0 {
+			srv.retainedDB.Remove(msg.Topic)
+		} else {
+			srv.retainedDB.AddOrReplace(msg.Copy())
+		}
+	}
 	srv.deliverMessage(clientID, msg, defaultIterateOptions(msg.Topic))
 	if srv.hooks.OnWillPublished != nil {
 		srv.hooks.OnWillPublished(context.Background(), clientID, req.Message)
